@@ -10,8 +10,6 @@ import (
 	"strconv"
 	"strings"
 
-	"github.com/nelhage/taktician/ai"
-	"github.com/nelhage/taktician/bitboard"
 	"github.com/nelhage/taktician/prove"
 	"github.com/nelhage/taktician/tak"
 )
@@ -94,13 +92,6 @@ func init() {
 		p := decPos(a[3])
 		res, st := runDFPN(parseColor(a[0]), atoi(a[1]), p)
 		return fmtDFPN(res, st) + " " + truthField(s, a[2], p)
-	}
-	// pnthreats <pos>: ai.CountThreats as DFPNSolver.solve calls it
-	opTable["pnthreats"] = func(s *Session, a []string) string {
-		p := decPos(a[0])
-		c := bitboard.Precompute(uint(p.Size()))
-		wp, wt, bp, bt := ai.CountThreats(&c, p)
-		return strconv.Itoa(wp) + " " + strconv.Itoa(wt) + " " + strconv.Itoa(bp) + " " + strconv.Itoa(bt)
 	}
 	// gtruth <attacker W|B> <cap> <pos>: exact forced-win status by retrograde analysis of the reachable graph
 	opTable["gtruth"] = func(s *Session, a []string) string {
